@@ -63,10 +63,20 @@ def compare(report, texts, impl, key_prefix, features=None, limit=150, max_bytes
         md = m2.get(cid, ["MISSING"])[0]
         rep["model"] = md[:600]
         res["parse_diag:" + md.split(" ")[0]] += 1
-        if md == "none":
+        if md.startswith("none"):
             if v.startswith("accept"):
                 report.violation(key_prefix + "-verdict-differs-from-spanned-model", "accepted, but the model parser rejects the text", rep)
-            continue                                      # a lexical error or LR error recovery: no claim about the diagnostics
+                continue
+            if md.startswith("none syntax "):
+                # LR error recovery: no claim about the further diagnostics, but the FIRST unexpected token is the
+                # first token that cannot continue a sentence (ParseLoc.first_error_span_text)
+                res["parse_loc:compared"] += 1
+                first_unexp = [x for x in v[7:].split(" ; ") if x.startswith("UnrecognizedToken|")]
+                want = md[len("none syntax "):]
+                if first_unexp and first_unexp[0].split("|")[2] != want:
+                    report.violation(key_prefix + "-syntax-error-location-differs-from-model", "the first unexpected token is reported at %s, the first token that cannot continue a sentence is at %s"
+                                     % (first_unexp[0].split("|")[2], want), rep)
+            continue
         if md.startswith("diags "):
             if v.startswith("accept") or v[7:].split(" ; ") != md[6:].split(" ; "):
                 report.violation(key_prefix + "-grammar-diagnostics-differ-from-model", "the grammar's diagnostics (kind, span, order) differ from the model's: %s vs %s"
